@@ -22,7 +22,8 @@ enum { BAD_NULL_OBJ_KEY, BAD_NULL_OBJ_TKEY, BAD_NULL_OBJ_TWEAK, BAD_NULL_OBJ_CTR
        BAD_TWEAK_LEN0, BAD_TWEAK_LONG, BAD_CTR_LONG, BAD_ENC_NULL_OUT, BAD_ENC_NULL_IN,
        BAD_ENC_NULL_BOTH, BAD_ENC_NULL_OUT0, BAD_ENC_NULL_IN0, BAD_MANTIS_ROUNDS4, BAD_MANTIS_ROUNDS9,
        BAD_MANTIS_KEY15, BAD_MANTIS_KEY17, BAD_MANTIS_TWEAK7, BAD_MANTIS_TWEAK9,
-       BAD_TWEAK_NULL_LEN0, BAD_TWEAK_NULL_LONG, BAD_CTR_NULL_LONG, BAD_MANTIS_TWEAK_NULL7, BAD_MANTIS_TWEAK_NULL9, BAD_NCLASSES };
+       BAD_TWEAK_NULL_LEN0, BAD_TWEAK_NULL_LONG, BAD_CTR_NULL_LONG, BAD_MANTIS_TWEAK_NULL7, BAD_MANTIS_TWEAK_NULL9,
+       BAD_MANTIS_ROUNDS37, BAD_MANTIS_ROUNDS_HIGH, BAD_NCLASSES };
 static const char *BADNAME[BAD_NCLASSES] = {
     "set_key(NULL object)", "set_tweaked_key(NULL object)", "set_tweak(NULL object)", "set_counter(NULL object)",
     "encrypt(NULL object)", "set_key(NULL key)", "set_tweaked_key(NULL key)", "set_key(len below range)",
@@ -31,7 +32,8 @@ static const char *BADNAME[BAD_NCLASSES] = {
     "encrypt(NULL input, 1 byte)", "encrypt(NULL output and input, 1 byte)", "encrypt(NULL output, 0 bytes)",
     "encrypt(NULL input, 0 bytes)", "set_key(rounds 4)", "set_key(rounds 9)", "set_key(15-byte key)",
     "set_key(17-byte key)", "set_tweak(len 7)", "set_tweak(len 9)",
-    "set_tweak(NULL, len 0)", "set_tweak(NULL, len block+1)", "set_counter(NULL, len block+1)", "set_tweak(NULL, len 7)", "set_tweak(NULL, len 9)" };
+    "set_tweak(NULL, len 0)", "set_tweak(NULL, len block+1)", "set_counter(NULL, len block+1)", "set_tweak(NULL, len 7)", "set_tweak(NULL, len 9)",
+    "set_key(rounds 37)", "set_key(rounds 2^31+6)" };
 
 /* ---------------- configuration ---------------- */
 static int g_mode;
@@ -140,7 +142,7 @@ static void build_alphabet(void)
     if (g_mode != MODE_C05) add_op(T_CLEANUP, 0, 0);
     if (g_mode != MODE_C05)
         for (i = 0; i < BAD_NCLASSES; ++i) {
-            int mantis_only = (i >= BAD_MANTIS_ROUNDS4 && i <= BAD_MANTIS_TWEAK9) || i == BAD_MANTIS_TWEAK_NULL7 || i == BAD_MANTIS_TWEAK_NULL9;
+            int mantis_only = (i >= BAD_MANTIS_ROUNDS4 && i <= BAD_MANTIS_TWEAK9) || i == BAD_MANTIS_TWEAK_NULL7 || i == BAD_MANTIS_TWEAK_NULL9 || i == BAD_MANTIS_ROUNDS37 || i == BAD_MANTIS_ROUNDS_HIGH;
             int skinny_only = (i == BAD_NULL_OBJ_TKEY || i == BAD_NULL_TKEY || i == BAD_KEY_SHORT || i == BAD_KEY_LONG ||
                                i == BAD_TKEY_SHORT || i == BAD_TKEY_LONG || i == BAD_TWEAK_LEN0 || i == BAD_TWEAK_LONG ||
                                i == BAD_TWEAK_NULL_LEN0 || i == BAD_TWEAK_NULL_LONG);
@@ -499,6 +501,9 @@ static void w_apply(int opi, int check)
             case BAD_CTR_NULL_LONG: r[i] = ctr_set_counter(g_c, ob, NULL, (unsigned)B + 1); break;
             case BAD_MANTIS_TWEAK_NULL7: r[i] = ctr_set_tweak(g_c, ob, NULL, 7); break;
             case BAD_MANTIS_TWEAK_NULL9: r[i] = ctr_set_tweak(g_c, ob, NULL, 9); break;
+            /* round counts that equal a legal one modulo 32 / modulo 2^31 */
+            case BAD_MANTIS_ROUNDS37: r[i] = ctr_set_key(g_c, ob, kk, 16, 37); break;
+            case BAD_MANTIS_ROUNDS_HIGH: r[i] = ctr_set_key(g_c, ob, kk, 16, 0x80000006u); break;
             }
         }
         if (check) {
